@@ -23,7 +23,7 @@ class C03(Prop):
         for i in range(n):
             r = rng.fork()
             collide = r.chance(1, 12)
-            names = r.shuffle([b"TestA", b"TestAB", b"TestA/sub", b"TestA/sub#01", b"TestA1", b"TestA10", b"TestB", b"TestB/x - 1", b"Test"])
+            names = r.shuffle([b"TestA", b"TestAB", b"TestA/sub", b"TestA/sub#01", b"TestA1", b"TestA10", b"TestB", b"TestB/x - 1", b"Test", b"TestPct/50%_off", b"TestFmt/%s_%d"])
             prog = G.gen_program(r, ntests=(1, 4), maxcalls=14, collide=collide, names=names)
             # sprinkle failing calls
             prog2 = []
@@ -47,10 +47,19 @@ class C03(Prop):
             execs = r.weighted([(1, 2), (2, 2), (3, 1)])
             upd = r.choice(["unset", "true"])
             ops = []
+            lead = []
+            if prog2 and r.chance(1, 5):
+                # an execution of a test in which EVERY call is rejected before the file is read (invalid JSON / YAML, failing
+                # matcher), then the test ends and is executed again: its calls start again at slot 1
+                t0, h0, _ = prog2[0]
+                for _ in range(r.range(1, 2)):
+                    lead.append(r.choice([G.op_match_doc("json", h0, t0, r.choice(G.BAD_JSON)), G.op_match_doc("yaml", h0, t0, r.choice(G.BAD_YAML)),
+                                          G.op_match_doc("json", h0, t0, b'{"a":1}', "string", [{"kind": "any", "paths": ["missing"]}])]))
+                lead.append(G.op_end(t0))
             if r.chance(1, 2):
                 # pre-populated by an earlier process with other values
                 ops += G.run_program(r, G.mutate_program(r, prog2, frac=(1, 2), collide=collide), 1) + [{"op": "newprocess"}]
-            body = G.run_program(r, prog2, execs)
+            body = lead + G.run_program(r, prog2, execs)
             for o in body:
                 ops += [o, {"op": "dumpfs"}] if o["op"] == "match" else [o]
             cases.append({"ci": False, "updvar": upd, "colour": False, "ops": [{"op": "dumpfs"}] + ops, "meta": {"collide": collide}})
